@@ -149,4 +149,4 @@ Fixpoint srun (s : sst) (es : list sev) : sst * list (list sobs) :=
 Definition ssnap (s : sst) : list nat :=
   let b := base s in
   [taken b; n_disp b; n_comp b; length (jobs b); Nat.b2n (iterating b); Nat.b2n (aborting b);
-   length (ready b); Nat.b2n (running b); match blk s with Some _ => 1 | None => 0 end].
+   length (ready b); Nat.b2n (running b); match blk s with Some _ => 1 | None => 0 end; Nat.b2n (exception b)].
